@@ -65,7 +65,11 @@ def main(argv):
                     rc2, out2 = sh("patch -p1 -F3 --no-backup-if-mismatch < %s" % patch, cwd=d)
                     if rc2:
                         print("patch does not apply to /repo HEAD:\n" + out + out2)
-                        meta["applies"] = False
+                        mp_ = os.path.join(VERIF, "seeded", sid, "meta.json")
+                        if os.path.exists(mp_):
+                            o_ = json.load(open(mp_))
+                            o_["applies"] = False
+                            json.dump(o_, open(mp_, "w"), indent=1)
                         return 3
                     rc3, newdiff = sh("git diff", cwd=d)
                     patch = os.path.join(tmp, "rebased.diff")
